@@ -13,7 +13,8 @@ RULE = ("random environments of 1-8 probe variables (scalars and lists) whose va
         "with inline 'bytes N' transfer, (c) run_phase with file transfer (pkg_pretend dumps declare -p). The daemon's "
         "declare -p text is decoded by a separate plain bash and compared byte for byte with what was sent, incl. the export "
         "attribute; the announced transfer length is compared with the bytes actually written; after each transfer the same "
-        "processor must answer 'alive' and serve the next request. Non-trivial: a value containing at least one shell-special "
+        "processor must answer 'alive' and serve the next request. About one transfer in eight (and one per path up front) "
+        "carries 3-8 extra variables of 12-48 KiB each, so the payload is several pipe buffers long. Non-trivial: a value containing at least one shell-special "
         "or non-ASCII character; distinct = (path, variable kinds, value).")
 ASSUMPTIONS = [
     "values contain no NUL; names avoid the daemon's read-only/black-listed names (prefix VT_)",
@@ -23,7 +24,7 @@ ASSUMPTIONS = [
 SHARDS = {"quick": 4, "thorough": 16}
 TIMEOUT = {"quick": 420, "thorough": 1800}
 MIN_EVALS = 100
-REQUIRED_COUNTERS = ("transfers:a", "transfers:b", "transfers:c", "followup_requests_ok")
+REQUIRED_COUNTERS = ("transfers:a", "transfers:b", "transfers:c", "followup_requests_ok", "bulk_transfers:b")
 TECHNIQUE = "runtime monitoring: real daemon round trip, bash-decoded values vs sent values, trace byte counts"
 
 FRAGMENTS = ["'", '"', "\\", "$", "`", "!", "\n", "\t", "  ", " ", "\\n", "$'", "${x}", "$(id)", "\\'", "\\\\", "a", "B", "0", "_",
@@ -39,9 +40,23 @@ def gen_value(rng):
     return "".join(rng.choice(FRAGMENTS) for _ in range(n))
 
 
-def gen_env(rng):
+def gen_bulk(rng, env, nonexp):
+    """Add 3-8 variables of 12-48 KiB each so the whole payload exceeds one pipe buffer (64 KiB) several times over."""
+    for i in range(rng.choice([3, 4, 6, 8])):
+        name = "VT_bulk%d" % i
+        unit = "".join(rng.choice(FRAGMENTS) for _ in range(rng.choice([7, 19, 40])))
+        target = rng.choice([12, 20, 33, 48]) * 1024
+        v = unit * (target // max(1, len(unit.encode("utf-8"))) + 1)
+        env[name] = v + rng.choice(["", "\\", "'", "end"])
+        if rng.random() < 0.3:
+            nonexp.append(name)
+
+
+def gen_env(rng, bulk=False):
     env = {}
     nonexp = []
+    if bulk:
+        gen_bulk(rng, env, nonexp)
     for i in range(rng.choice([1, 2, 3, 5, 8])):
         name = "VT_%s%d" % (rng.choice(["a", "B", "x_", "Q9"]), i)
         if rng.random() < 0.25:
@@ -304,7 +319,8 @@ def one(ctx, sess, path, env, nonexp):
         err = (err or "") + " [both sides blocked reading: %r]" % (stalls[0]["last_events"][-3:],)
     judge(ctx, sess, path, env, nonexp, dump, err, lens)
     if ctx.want_sample():
-        ctx.sample({"path": path, "env": env, "nonexported": nonexp, "ok": err is None})
+        short = {k: (v if not k.startswith("VT_bulk") else "%s... (%d chars)" % (v[:40], len(v))) for k, v in env.items()}
+        ctx.sample({"path": path, "env": short, "nonexported": nonexp, "ok": err is None})
 
 
 def run(ctx):
@@ -315,11 +331,17 @@ def run(ctx):
     rng.shuffle(plan)
     # make sure each path is exercised early even if the soft deadline cuts the run short
     plan = ["a", "b", "c"] + plan
+    # payloads larger than one pipe buffer: once per path up front, then about one transfer in eight
+    bulk_at = {3: "b", 4: "a", 5: "c"}
+    plan[3:3] = ["b", "a", "c"]
     try:
-        for path in plan:
+        for i, path in enumerate(plan):
             if ctx.out_of_time(45):
                 break
-            env, nonexp = gen_env(rng)
+            bulk = i in bulk_at or (i > 5 and rng.random() < 0.12)
+            env, nonexp = gen_env(rng, bulk)
+            if bulk:
+                ctx.count("bulk_transfers:" + path)
             one(ctx, sess, path, env, nonexp)
     finally:
         sess.drop()
